@@ -477,10 +477,30 @@ def run_case(params):
     pinned = list(pinned_pairs()) if params['batch'] == 0 else []
     shared_cache = {}          # one symmetry cache shared by a history of matches (the public cache= argument)
     prev = None
+    last_any = None
+    pending_swap = None
     for j in range(params['n'] + len(pinned)):
         use_cache = False
         if j < len(pinned):
             SG, G, nm, em, kind, hk, lcs = pinned[j]
+        elif pending_swap is not None:
+            # ... and the same pattern with the keys -1 and -2 exchanged: another labelled graph whose tuples of nodes and of edges
+            # have the same hash (hash(-1) == hash(-2) in CPython), matched with the same cache
+            SG0, nm, em, kind0, lcs = pending_swap
+            pending_swap = None
+            SG = nx.relabel_nodes(SG0, {-1: -2, -2: -1})
+            G = relabel(rnd, host_from_pattern(rnd, SG), 90)
+            kind, hk = 'negkeys-swapped:' + kind0.split(':')[-1], 'copy'
+            use_cache = True
+        elif last_any is not None and rnd.random() < 0.08:
+            # a pattern two of whose node keys are -1 and -2, matched with the shared cache ...
+            SG0, nm, em, kind0, lcs = last_any
+            u, v = rnd.sample(sorted(SG0.nodes), 2)
+            SG = nx.relabel_nodes(SG0, {u: -1, v: -2})
+            G = relabel(rnd, host_from_pattern(rnd, SG), 90)
+            kind, hk = 'negkeys:' + kind0.split(':')[-1], 'copy'
+            use_cache = True
+            pending_swap = (SG, nm, em, kind0, lcs)
         elif prev is not None and rnd.random() < 0.3:
             # same pattern (same node and edge order), colours placed differently, matched with the shared cache
             SG0, nm, em, kind0, lcs = prev
@@ -494,6 +514,8 @@ def run_case(params):
             use_cache = rnd.random() < 0.5
         if (nm or em) and len(SG) <= 8:
             prev = (SG, nm, em, kind, lcs)
+        if 2 <= len(SG) <= 8 and not kind.startswith('negkeys') and -1 not in SG and -2 not in SG:
+            last_any = (SG, nm, em, kind, lcs)
         cache = shared_cache if use_cache else None
         # a quarter of the generated LCS-sized pairs are put to ONE matcher object as a sequence of different questions
         hist = j >= len(pinned) and lcs and rnd.random() < 0.5
